@@ -243,19 +243,34 @@ def run_py_reader_cases(ctx, pyrt, cases, rng):
 
 
 def py_obs_coq(tok):
-    if tok in ("EOF", "ERR:BufferError"):
-        return "Eof"           # both are "an error is reported"; kinds are counted in the evidence
+    if tok == "EOF":
+        return "PEof"
+    if tok == "ERR:BufferError":
+        return "PFault BufferErr"      # the resize quirk of _fill_buffer; the machine model predicts exactly where
     if tok.startswith("ERR:"):
-        return "Fault StaleRead"   # any other exception never matches the contract
-    return obs_coq(tok)
+        return "PFault PStale"         # any other exception never matches the model
+    return "P" + obs_coq(tok)
+
+
+def pop_coq(op):
+    k, a = op
+    if k == "b":
+        return "PByte"
+    if k in ("v32", "v64"):
+        return "PVar"
+    if k == "f":
+        return "PFixed %d" % a
+    if k == "r":
+        return "PBytes %d" % a
+    raise ValueError(k)
 
 
 def py_reader_cases_v(cases, observed):
     items = []
     for (bs, data, ops), obs in zip(cases, observed):
-        cops = [("v64", None) if o[0] == "v32" else o for o in ops]
-        items.append("(%d%%nat, %s, %s, %s)" % (bs, coq_bytes(data), "[" + "; ".join(op_coq(o) for o in cops) + "]",
+        items.append("(%d%%nat, %s, %s, %s)" % (bs, coq_bytes(data), "[" + "; ".join(pop_coq(o) for o in ops) + "]",
                                                 "[" + "; ".join(py_obs_coq(t) for t in obs) + "]"))
-    return ("From YV Require Import Base.Wire Model.CodedCpp Model.CodedCases.\n"
-            "Definition cases : list rcase := [\n " + ";\n ".join(items) + "\n].\n"
-            "Definition MA := Eval vm_compute in mismatches rcase_ok_abs cases.\nPrint MA.\n")
+    return ("From YV Require Import Base.Wire Model.CodedCpp Model.CodedPy Model.CodedCases.\n"
+            "Definition cases : list pcase := [\n " + ";\n ".join(items) + "\n].\n"
+            "Definition MM := Eval vm_compute in mismatches pcase_ok_machine cases.\nPrint MM.\n"
+            "Definition MA := Eval vm_compute in mismatches pcase_ok_abs cases.\nPrint MA.\n")
